@@ -538,6 +538,7 @@ def clock_config(vc):
     import datetime
     days, secs = vc.int("days", 0, 400), vc.int("secs", 0, 86399)
     step = vc.int("step", 2, 3600)
+    out_step = vc.int("output_step", 1, 7200)  # (finer, equal or coarser than the physics step: the clock ticks with the physics step whatever the output cadence)
     got = {}
 
     class Rec:
@@ -559,11 +560,31 @@ def clock_config(vc):
             def __sub__(self, other):
                 return TD() if (self.tag, other.tag) == ("stop", "start") else None
         start, stop = DT("start"), DT("stop")
-        out = vc.fn(CK + "ScenarioClock.fromConfig")(Rec, _NS(start_timestamp=start, stop_timestamp=stop, physics_step_sec=step))
+        out = vc.fn(CK + "ScenarioClock.fromConfig")(Rec, _NS(start_timestamp=start, stop_timestamp=stop, physics_step_sec=step, output_step_sec=out_step))
     else:
         from resonaate.scenario.clock import ScenarioClock
         start = datetime.datetime(2020, 2, 27, 22, 10, 5)
         stop = start + datetime.timedelta(days=days, seconds=secs)
-        out = ScenarioClock.fromConfig.__func__(Rec, _NS(start_timestamp=start, stop_timestamp=stop, physics_step_sec=step))
+        out = ScenarioClock.fromConfig.__func__(Rec, _NS(start_timestamp=start, stop_timestamp=stop, physics_step_sec=step, output_step_sec=out_step))
     a = got.get("args", (None, None, None))
     vc.ensure("O-C05-clock-config.span", vc.And(out == "CLOCK", a[0] is start, a[1] == days * 86400 + secs, a[2] is step or a[2] == step))
+
+
+@obligation("C05", "run_duration_bounded", ensures=["B-C05-run.duration", "B-C05-run.propagates-to-target"], fns=["resonaate:runResonaate"], mode="Z", native_only=True, samples=200,
+            bounded="BOUNDED stand-in, not a proof (the function imports the scenario builder locally; builder and target-date conversion are replaced by recorders): 200 (quick) / 2000 (thorough) "
+                    "sampled durations per run, whole seconds from 1 s to 5 days given in hours (not whole minutes in general)",
+            note="the entry point hands the REQUESTED duration on: the run length given in hours reaches getTargetJulianDate as that many seconds (to the microsecond a timedelta resolves), with the "
+                 "clock's start Julian date, and the scenario is propagated to exactly the date that returns, then shut down (the step count for that date is O-C05-steps.*)")
+def run_duration_bounded(vc):
+    from unittest import mock
+    import resonaate
+    secs = vc.int("seconds", 1, 5 * 86400)
+    calls = []
+    app = _NS(clock=_NS(julian_date_start="JD0"), propagateTo=lambda t: calls.append(("propagateTo", t)), shutdown=lambda: calls.append(("shutdown",)),
+              logger=_NS(info=lambda *a: None, warning=lambda *a: None))
+    with mock.patch("resonaate.scenario.buildScenarioFromConfigFile", lambda *a, **k: app), \
+            mock.patch("resonaate.physics.time.conversions.getTargetJulianDate", lambda jd0, td: (calls.append(("target", jd0, td)), "TARGET")[1]):
+        resonaate.runResonaate("init.json", sim_time_hours=secs / 3600.0)
+    tgt = [c for c in calls if c[0] == "target"]
+    vc.ensure("B-C05-run.duration", len(tgt) == 1 and tgt[0][1] == "JD0" and abs(tgt[0][2].total_seconds() - secs) <= 1e-6)
+    vc.ensure("B-C05-run.propagates-to-target", [c for c in calls if c[0] != "target"] == [("propagateTo", "TARGET"), ("shutdown",)])
